@@ -298,6 +298,77 @@ def run(ctx):
     succ = q.nonfalse_returns(fs)
     ctx.check(len(succ) == 1 and fs.only_through(succ[0], g_all) and not [w for w in q.writes_to(fs, outp) if q.before(fs, w, succ[0])], R4, 'filter_8bit:valid-input-untouched', 'true returned without validating the whole input / output touched', fs.where)
     ctx.floor(R4, 6)
+
+    # ---------------- R5 the UTF-8 filter is exact (E3): verdict and filtered text against the RFC 3629 reference, all inputs of length 0..2 (0..3 in the thorough tier)
+    R5 = ctx.rule('C14.R5', 'validate_or_filter_utf8 is exact: true and output untouched iff the input is well-formed html-safe UTF-8; otherwise the output is the input with every '
+                            'well-formed safe sequence copied, every well-formed unsafe code point and every ill-formed byte replaced (or dropped when no replacement is given)')
+    from vlib.absint import Out
+
+    def ref_filter(box, repl):
+        """('split', idx) or (valid, [('copy', a, b) | ('repl',)])"""
+        i, n, valid, outp_ = 0, len(box), True, []
+        while i < n:
+            sp = spec_utf8(box[i:], True)
+            if sp[0] == 'split':
+                return ('split', i + sp[1])
+            if sp[0] == 'ok':
+                outp_.append(('copy', i, i + sp[4]))
+                i += sp[4]
+                continue
+            valid = False
+            sp2 = spec_utf8(box[i:], False)
+            if sp2[0] == 'split':
+                return ('split', i + sp2[1])
+            if repl:
+                outp_.append(('repl',))
+            i += sp2[4] if sp2[0] == 'ok' else 1
+        return (valid, outp_)
+    for L in ((0, 1, 2, 3) if ctx.tier == 'thorough' else (0, 1, 2)):
+        for repl in (0, 0x3F):
+            fails = []
+            nb = 0
+
+            def runf(it, L=L, repl=repl):
+                arr = Arr([it.inbyte(i) for i in range(L)] + [AV.const(0)], 'input')
+                o = Out('output')
+                o.items.append(AV.const(0x58))          # pre-existing content: must stay when the input is valid, must go when it is not
+                r = it.call_fn(fu, [PV(arr, 0), PV(arr, L), Cell(o), AV.const(repl)])
+                return r, o
+            pending = [[(0, 255)] * L]
+            while pending:
+                box = pending.pop()
+                rf = ref_filter(box, repl)
+                if rf[0] == 'split':
+                    idx = rf[1]
+                    lo, hi = box[idx]
+                    mid = absint._aligned_mid(lo, hi)
+                    b1, b2 = list(box), list(box)
+                    b1[idx] = (lo, mid - 1)
+                    b2[idx] = (mid, hi)
+                    pending += [b2, b1]
+                    continue
+                for (bx, (r, o), it) in absint.explore(PE, runf, [box], max_boxes=2000000):
+                    rf2 = ref_filter(bx, repl)
+                    if rf2[0] == 'split':
+                        pending.append(bx)
+                        continue
+                    nb += 1
+                    valid, segs = rf2
+                    got = [frozenset(x & 0xFF for x in (e.vals if e.vals is not None else range(e.lo, e.hi + 1))) for e in o.items]
+                    if valid:
+                        want = [frozenset([0x58])]
+                    else:
+                        want = []
+                        for sg in segs:
+                            if sg[0] == 'repl':
+                                want.append(frozenset([repl]))
+                            else:
+                                want += [frozenset(range(bx[k][0], bx[k][1] + 1)) for k in range(sg[1], sg[2])]
+                    if not (isinstance(r, AV) and r.is_const() and bool(r.lo) == valid) or got != want:
+                        fails.append((bx, 'reference: %s %s; filter returned %r with output %s' % (valid, segs, r, [sorted(x)[:3] for x in got])))
+            ctx.check(not fails, R5, 'filter_utf8:len=%d:repl=%02X' % (L, repl), ('on bytes %s: %s' % (' '.join('%02X-%02X' % b for b in fails[0][0]), fails[0][1])) if fails else '', fu.where,
+                      detail={'boxes': nb, 'counterexamples': [(' '.join('%02X-%02X' % b for b in bx), w) for bx, w in fails[:4]]})
+    ctx.floor(R5, 6)
     ctx.trust('RFC 3629 table embedded in rules/C14.py; interval/stride arithmetic of vlib/absint.py')
 
 
